@@ -25,6 +25,19 @@ STRENGTHENED = {
     "C16-B": "missed in the quick tier (thorough caught it): pair lists were <=2 long -> pairs up to length 3 in quick",
     "C19-A": "missed: every tainted text started with a letter, bracket or underscore -> taint strings / inputs that start like a number",
     "C19-B": "missed: no element that calls a user function -> every function-taking element with a printing / evaluating lambda",
+    # second wave (seeds C/D)
+    "C01-C": "missed: parallel-apply operands always had equal arity -> ₌/₍ with operands of different arity in the statement menu",
+    "C02-C": "missed: names were ASCII only -> every code-page word character (\\w) at every name position",
+    "C08-D": "missed in the quick tier: the list-list pool had no falsy items -> \"\" and [] added to the quick pool",
+    "C09-C": "missed: no function values among the arguments -> a lambda and a list holding a lambda in the value domain",
+    "C11-D": "missed: read histories had no early return -> X inside functions / lambdas / loops / list items in the menus and the model",
+    "C15-D": "missed: each codec was exercised on its own -> two-step histories: literals of different kinds with the same text in one process",
+    "C18-C": "missed: payload alphabet had no dictionary codes -> every 1- and 2-character dictionary code inside a string",
+    "C18-D": "missed: no character that str.isnumeric()/\\w accept but Python does not -> ² and ₁ added to the adversarial alphabet",
+    "C19-C": "missed: no taint text with a backslash before a double quote -> quote-breakout taint literal and input",
+    "C19-D": "missed: inputs were numbers, lists or expressions -> valid Python literals without a Vyxal value (None, ..., 1e999, sets, bytes)",
+    "C16-C": "missed: the grading law accepted any order among equal items -> grades are compared with the stable grade (ties keep their original order, as in APL)",
+    "C14-C": "missed: the item at index n was read from the cache after has_ind -> a third way of taking the prefix: real indexing result[n]",
 }
 
 
